@@ -1,6 +1,6 @@
 (** C16 — property theorems: statements (as printed by Coq) closed by [exact]. *)
 From Coq Require Import ZArith QArith Qround List.
-From KV Require Import Base.Outcome Base.Num C06.Model C06.Dur C06.Proofs C16.Model C16.ProofsWitness C16.ProofsProtocol
+From KV Require Import Base.IEEE Base.Outcome Base.Num C06.Model C06.Dur C06.Proofs C16.Model C16.ProofsWitness C16.ProofsProtocol
   C16.ProofsStale C16.ProofsScaling C16.ProofsExamples.
 Import ListNotations.
 Local Open Scope Z_scope.
@@ -155,6 +155,20 @@ Theorem delay_time_error :
         L = Qfloor (T * inject_Z sr) /\ (T - 1 / inject_Z sr < inject_Z L / inject_Z sr <= T)%Q) /\
        ((T * inject_Z sr < 1)%Q -> L = 1 /\ (T < inject_Z L / inject_Z sr <= T + 1 / inject_Z sr)%Q).
 Proof. exact @delay_time_error_l. Qed.
+
+Theorem delay_frames_int_exact :
+  forall t_ns sr : Z,
+       0 <= t_ns ->
+       0 < sr ->
+       (secs_of_ns t_ns * inject_Z sr < inject_Z (2 ^ 64 - 1))%Q ->
+       delay_frames_int t_ns sr = @delay_frames Q _ _ t_ns sr /\
+       delay_frames_int t_ns sr = Z.max 1 (Qfloor (secs_of_ns t_ns * inject_Z sr)).
+Proof. exact @delay_frames_int_exact_l. Qed.
+
+Theorem f35_regression :
+  (delay_frames_int 35750000 48000 = 1716 /\ delay_frames_int 1001000000 8000 = 8008 /\
+   @delay_frames f64 _ _ 35750000 48000 = 1715 /\ @delay_frames f64 _ _ 1001000000 8000 = 8007)%Z.
+Proof. exact f35_regression_l. Qed.
 
 Theorem filter_coeff_depends_on_ratio :
   forall (pi lo hi : Q) (tan : Q -> Q) (f1 f2 : Q) (sr1 sr2 : Z),
